@@ -1,6 +1,8 @@
 // Mode dispatch shared by all property harnesses: pbt (rapidcheck), fuzz (libFuzzer), sweep, replay, seeds.
 #include "verif.h"
+#ifndef VERIF_PLAIN
 #include <rapidcheck.h>
+#endif
 #include <unistd.h>
 #include <signal.h>
 #include <sys/mman.h>
@@ -13,8 +15,12 @@
 #include <fstream>
 #include <iostream>
 
+#ifndef VERIF_PLAIN
 extern "C" int LLVMFuzzerRunDriver(int* argc, char*** argv, int (*cb)(const uint8_t*, size_t));
 extern "C" void __sanitizer_set_death_callback(void (*cb)(void));
+#endif
+// child-process role of differential scenarios (C18); weak default for harnesses without one
+__attribute__((weak)) int run_scenario_main(int argc, char** argv) { (void)argc; (void)argv; return 2; }
 extern int verif_cap_active;
 
 namespace verif {
@@ -186,6 +192,9 @@ static int run_one(const uint8_t* d, size_t n, std::string* msg) {
 	return 0;
 }
 
+static void at_exit() { dump_stats(); if (!g_scratch.empty()) rm_rf(g_scratch); }
+
+#ifndef VERIF_PLAIN
 static int fuzz_cb(const uint8_t* d, size_t n) {
 	std::string msg;
 	if (run_one(d, n, &msg)) {
@@ -199,7 +208,6 @@ static int fuzz_cb(const uint8_t* d, size_t n) {
 	return 0;
 }
 
-static void at_exit() { dump_stats(); if (!g_scratch.empty()) rm_rf(g_scratch); }
 
 static int mode_pbt(int n, int maxsize) {
 	// rapidcheck is configured through RC_PARAMS only
@@ -223,6 +231,8 @@ static int mode_pbt(int n, int maxsize) {
 	});
 	return ok ? 0 : 1;
 }
+
+#endif
 
 static int mode_replay(int argc, char** argv) {
 	int rc = 0;
@@ -258,9 +268,14 @@ int main(int argc, char** argv) {
 	if (const char* s = getenv("VERIF_CASE_TIMEOUT")) g_case_timeout = atoi(s);
 	mkdir(g_outdir.c_str(), 0700);
 	signal(SIGALRM, on_alarm);
+#ifndef VERIF_PLAIN
 	__sanitizer_set_death_callback(death_cb);
+#else
+	(void)death_cb;
+#endif
 	atexit(at_exit);
 	std::string mode = argv[1];
+#ifndef VERIF_PLAIN
 	if (mode == "pbt") {
 		if (argc < 4) return 2;
 		return mode_pbt(atoi(argv[2]), atoi(argv[3]));
@@ -272,6 +287,8 @@ int main(int argc, char** argv) {
 		fargv[0] = argv[0];
 		return LLVMFuzzerRunDriver(&fargc, &fargv, fuzz_cb);
 	}
+#endif
+	if (mode == "scenario") return run_scenario_main(argc - 2, argv + 2);
 	if (mode == "sweep") {
 		g_in_sweep = true;
 		arm();
